@@ -21,8 +21,8 @@ package vbft
 //   * node Y receives these messages once each, in one of two canonical orders;
 //     node X receives the SAME messages in the SAME order of first arrival, but
 //     some of them again (1..3 deliveries of a commit, 1..2 of an endorsement or
-//     of the proposal; the copies right behind the original, or all copies
-//     behind the last first delivery; bounded total number of extra deliveries);
+//     of the proposal; a copy may arrive at ANY point after the original;
+//     bounded total number of extra deliveries);
 //   * both feed a real BlockPool the way Server.processMsgEvent does
 //     (newBlockProposal / newBlockEndorsement / newBlockCommitment, the real
 //     commitDone after every accepted commit message once the proposal is
@@ -205,26 +205,70 @@ func (v *c34rView) faulty(c uint32) []uint32 {
 	return f
 }
 
-// expand: node X's delivery sequence = the base sequence with extra[i] further copies of message i, either right
-// behind the original (burst) or all behind the last first delivery, in base order (tail = a re-broadcast round)
-func c34rExpand(seq []c34rItem, extra []int, tail bool) []c34rItem {
-	var out []c34rItem
-	for i, it := range seq {
-		out = append(out, it)
-		if !tail {
-			for x := 0; x < extra[i]; x++ {
-				out = append(out, it)
-			}
-		}
-	}
-	if tail {
-		for i, it := range seq {
-			for x := 0; x < extra[i]; x++ {
-				out = append(out, it)
-			}
-		}
+// node X's delivery sequence: order[i] is the index (in the base sequence) of the i-th message delivered
+func c34rExpand(seq []c34rItem, order []int) []c34rItem {
+	out := make([]c34rItem, len(order))
+	for i, j := range order {
+		out[i] = seq[j]
 	}
 	return out
+}
+
+// a well-formed order: every base message occurs, first occurrences in base order, at most 3 deliveries of a commit
+// and 2 of anything else
+func c34rOrderOK(seq []c34rItem, order []int) bool {
+	cnt := make([]int, len(seq))
+	next := 0
+	for _, j := range order {
+		if j < 0 || j >= len(seq) || j > next {
+			return false
+		}
+		if j == next {
+			next++
+		}
+		cnt[j]++
+		if cnt[j] > 2 && (seq[j].kind != 2 || cnt[j] > 3) {
+			return false
+		}
+	}
+	return next == len(seq)
+}
+
+// c34rSequences enumerates every delivery sequence of node X that is not the base sequence itself: the messages of
+// seq first arrive in the order of seq; at any point a message that has arrived already may arrive again (<=2 further
+// copies of a commit, <=1 of an endorsement or the proposal), at most `budget` extra deliveries in total.
+func c34rSequences(seq []c34rItem, budget int, f func(order []int)) {
+	L := len(seq)
+	cnt := make([]int, L)
+	order := make([]int, 0, L+budget)
+	var rec func(next, left int)
+	rec = func(next, left int) {
+		if next == L && len(order) > L {
+			f(order)
+		}
+		if next < L {
+			order = append(order, next)
+			rec(next+1, left)
+			order = order[:len(order)-1]
+		}
+		if left > 0 {
+			for j := 0; j < next; j++ {
+				max := 1
+				if seq[j].kind == 2 {
+					max = 2
+				}
+				if cnt[j] >= max {
+					continue
+				}
+				cnt[j]++
+				order = append(order, j)
+				rec(next, left-1)
+				order = order[:len(order)-1]
+				cnt[j]--
+			}
+		}
+	}
+	rec(0, budget)
 }
 
 // the commit messages of a view, built once (every delivery hands the pool a copy of its own, as off the wire)
@@ -298,8 +342,7 @@ type c34rCase struct {
 	C      uint32   `json:"c"`
 	Faulty []uint32 `json:"faulty_peers"`
 	View   c34rView `json:"messages_delivered_once_to_node_y"`
-	Extra  []int    `json:"extra_deliveries_to_node_x_per_message"`
-	Tail   bool     `json:"extra_deliveries_after_all_first_deliveries"`
+	Order  []int    `json:"node_x_delivery_order_as_indices_into_node_y_deliveries"`
 	SeqY   []string `json:"node_y_deliveries"`
 	SeqX   []string `json:"node_x_deliveries"`
 }
@@ -355,10 +398,10 @@ func c34rKinds(mask int) string {
 // judge runs both nodes on fresh pools; key and detail when they decide different blocks
 func (w *c34rWorld) judge(c *c34rCase) (string, string) {
 	seq := c.View.sequence(w.q.n)
-	if len(c.Extra) != len(seq) {
+	if !c34rOrderOK(seq, c.Order) {
 		return "", ""
 	}
-	xs := c34rExpand(seq, c.Extra, c.Tail)
+	xs := c34rExpand(seq, c.Order)
 	p := w.prepare(&c.View)
 	dy, _ := w.decide(p, seq)
 	dx, used := w.decide(p, xs)
@@ -375,44 +418,19 @@ func (w *c34rWorld) judge(c *c34rCase) (string, string) {
 
 var c34rOutcome = map[int]string{c34qUndecided: "undecided", c34qFull: "decides-block", c34qEmpty: "decides-empty-block", c34qForeign: "decides-block-of-a-proposer-without-messages"}
 
-// every vector of extra deliveries with at most `budget` in total; at most 2 per commit, 1 per endorsement / proposal
-func c34rExtras(seq []c34rItem, budget int, f func(extra []int, total int) bool) {
-	extra := make([]int, len(seq))
-	var rec func(i, left, total int) bool
-	rec = func(i, left, total int) bool {
-		if i == len(seq) {
-			if total == 0 {
-				return true
-			}
-			return f(extra, total)
-		}
-		max := 1
-		if seq[i].kind == 2 {
-			max = 2
-		}
-		for x := 0; x <= max && x <= left; x++ {
-			extra[i] = x
-			if !rec(i+1, left-x, total+x) {
-				return false
-			}
-		}
-		extra[i] = 0
-		return true
-	}
-	rec(0, budget, 0)
-}
-
 func TestVerif_C34_Redelivery(t *testing.T) {
 	r := vh.Start(t, "C34", "redelivery")
 	defer r.Finish()
-	r.Rule("worlds (N,C); one proposal A of the leader; per other peer {absent | endorsement of A delivered | endorsement of A's empty variant delivered | commit for A delivered | commit for A's empty variant delivered} x endorser list carried by commit messages {all endorsements made for the same variant, all but the committer's own, none} x two orders of first arrival (proposal, endorsements, commits by ascending peer; the exact reverse); views needing more than C faulty peers (a committer of a variant whose endorse round cannot have completed) are dropped. Node Y gets every message once. Node X gets the same sequence with EVERY vector of extra deliveries (<=2 further copies of a commit, <=1 of an endorsement or the proposal, bounded total), the copies right behind the original or all behind the last first delivery. Each delivery is played into a fresh real BlockPool as processMsgEvent does (newBlockProposal / newBlockEndorsement / newBlockCommitment; real commitDone after every accepted commit once the proposal is there, and at the end as the commit timeout); the first 'done' is the seal decision. Violation: X and Y both decide and decide different blocks")
+	r.Rule("worlds (N,C); one proposal A of the leader; per other peer {absent | endorsement of A delivered | endorsement of A's empty variant delivered | commit for A delivered | commit for A's empty variant delivered} x endorser list carried by commit messages {all endorsements made for the same variant, all but the committer's own, none} x two orders of first arrival (proposal, endorsements, commits by ascending peer; the exact reverse); views needing more than C faulty peers (a committer of a variant whose endorse round cannot have completed) are dropped. Node Y gets every message once. Node X gets the same messages in the same order of first arrival and, at ANY later point, any of them again (<=2 further copies of a commit, <=1 of an endorsement or the proposal, bounded total number of extra deliveries): every such sequence. Each delivery is played into a fresh real BlockPool as processMsgEvent does (newBlockProposal / newBlockEndorsement / newBlockCommitment; real commitDone after every accepted commit once the proposal is there, and at the end as the commit timeout); the first 'done' is the seal decision. Violation: X and Y both decide and decide different blocks")
 	r.Assume("honest-form messages only (real signatures by the peer named; commit lists hold endorsements really made for the same variant; forged lists are known findings of the other units); every peer supports one variant; reachability of a message set through the node control flow is over-approximated (any peer may endorse and commit; a variant is committed by an honest peer only when enough endorsements for it were made, otherwise its committers count as faulty, at most C); the two nodes differ in repetition only, not in order or subset; block-pool level (msgPool bookkeeping and timers of the Server are not run); one height")
-	type wc struct{ n, c uint32 }
-	worlds := []wc{{4, 1}, {5, 1}, {6, 1}, {7, 2}}
-	if r.Thorough() {
-		worlds = append(worlds, wc{7, 1}, wc{8, 2})
+	type wc struct {
+		n, c   uint32
+		budget int // extra deliveries to node X
 	}
-	budget := r.Pick(2, 3)
+	worlds := []wc{{4, 1, 2}, {5, 1, 2}, {6, 1, 2}, {7, 2, 2}}
+	if r.Thorough() {
+		worlds = []wc{{4, 1, 3}, {5, 1, 3}, {6, 1, 3}, {7, 2, 3}, {7, 1, 2}, {8, 2, 1}}
+	}
 	var rc c34rCase
 	if r.IsReplay() {
 		if r.ReplayCase(&rc) && rc.Unit == "redelivery" && rc.N != 0 {
@@ -426,7 +444,7 @@ func TestVerif_C34_Redelivery(t *testing.T) {
 	var bounds []string
 	item := 0
 	for _, wd := range worlds {
-		bounds = append(bounds, fmt.Sprintf("(%d,%d)", wd.n, wd.c))
+		bounds = append(bounds, fmt.Sprintf("(%d,%d)<=%d extra", wd.n, wd.c, wd.budget))
 		var w *c34rWorld
 		tag := fmt.Sprintf("redelivery:N=%d,C=%d", wd.n, wd.c)
 		// work items: (world, what peers 2 and 3 did)
@@ -488,55 +506,49 @@ func TestVerif_C34_Redelivery(t *testing.T) {
 						runs++
 						bases++
 						r.Class(tag + ":once-each:" + c34rOutcome[dy])
-						c34rExtras(seq, budget, func(extra []int, total int) bool {
-							for tail := 0; tail < 2; tail++ {
-								xs := c34rExpand(seq, extra, tail == 1)
-								dx, used := w.decide(pm, xs)
-								runs++
-								if mask := c34rKindMask(xs, used); mask != 0 {
-									for i, k := range c34rKindNames {
-										if mask&(1<<uint(i)) != 0 {
-											r.Class("redelivery:" + k + "-delivered-again-before-the-decision:" + c34rOutcome[dx])
-										}
-									}
-								}
-								switch {
-								case dx == dy:
-								case dy == c34qUndecided:
-									r.Class(tag + ":decision-only-with-repetition")
-								case dx == c34qUndecided:
-									r.Class(tag + ":no-decision-with-repetition")
-								default:
-									// every extra delivery necessary: with any one of them removed X decides like Y
-									c := c34rCase{Unit: "redelivery", N: wd.n, C: wd.c, Faulty: fl, View: vv, Extra: append([]int{}, extra...), Tail: tail == 1}
-									minimal := true
-									for i := range extra {
-										if extra[i] == 0 {
-											continue
-										}
-										c.Extra[i]--
-										if d2, _ := w.decide(pm, c34rExpand(seq, c.Extra, c.Tail)); d2 != dy {
-											minimal = false
-										}
-										c.Extra[i]++
-										runs++
-									}
-									if !minimal {
-										break
-									}
-									k, det := w.judge(&c)
-									if k == "" {
-										t.Fatalf("VERIF-INFRA %s: differing decisions did not reproduce on fresh pools: %+v", tag, c)
-									}
-									if h := best[k]; h == nil || len(xs) < h.size {
-										if h == nil {
-											bestKeys = append(bestKeys, k)
-										}
-										best[k] = &hit{c, det, len(xs)}
+						c34rSequences(seq, wd.budget, func(order []int) {
+							xs := c34rExpand(seq, order)
+							dx, used := w.decide(pm, xs)
+							runs++
+							if mask := c34rKindMask(xs, used); mask != 0 {
+								for i, k := range c34rKindNames {
+									if mask&(1<<uint(i)) != 0 {
+										r.Class("redelivery:" + k + "-delivered-again-before-the-decision:" + c34rOutcome[dx])
 									}
 								}
 							}
-							return true
+							switch {
+							case dx == dy:
+							case dy == c34qUndecided:
+								r.Class(tag + ":decision-only-with-repetition")
+							case dx == c34qUndecided:
+								r.Class(tag + ":no-decision-with-repetition")
+							default:
+								// every extra delivery necessary: with any one of them removed X decides like Y
+								seen := make([]bool, len(seq))
+								for i, j := range order {
+									if !seen[j] {
+										seen[j] = true
+										continue
+									}
+									less := append(append([]int{}, order[:i]...), order[i+1:]...)
+									runs++
+									if d2, _ := w.decide(pm, c34rExpand(seq, less)); d2 != dy {
+										return
+									}
+								}
+								c := c34rCase{Unit: "redelivery", N: wd.n, C: wd.c, Faulty: fl, View: vv, Order: append([]int{}, order...)}
+								k, det := w.judge(&c)
+								if k == "" {
+									t.Fatalf("VERIF-INFRA %s: differing decisions did not reproduce on fresh pools: %+v", tag, c)
+								}
+								if h := best[k]; h == nil || len(xs) < h.size {
+									if h == nil {
+										bestKeys = append(bestKeys, k)
+									}
+									best[k] = &hit{c, det, len(xs)}
+								}
+							}
 						})
 					}
 				}
@@ -558,5 +570,5 @@ func TestVerif_C34_Redelivery(t *testing.T) {
 			}
 		}
 	}
-	r.Bound(fmt.Sprintf("worlds (N,C) in %s, one height, one proposal with its empty variant, 5^(N-1) supporter assignments x 3 commit-list policies x 2 orders of first arrival, every vector of <=%d extra deliveries (<=2 per commit, <=1 per endorsement/proposal) x 2 placements", strings.Join(bounds, " "), budget))
+	r.Bound(fmt.Sprintf("worlds (N,C) in %s, one height, one proposal with its empty variant, 5^(N-1) supporter assignments x 3 commit-list policies x 2 orders of first arrival, every delivery sequence of node X with at most the stated number of extra deliveries (<=2 per commit, <=1 per endorsement/proposal) at any later point", strings.Join(bounds, " ")))
 }
